@@ -310,7 +310,7 @@ def run_check(pid, tier="quick", seed=0, replay=None, out=sys.stdout):
     classes = set()
     judged = 0
     inconcl = []
-    unlisted, known_hit = [], collections.Counter()
+    unlisted, known_hit, known_list = [], collections.Counter(), []
     n_viol = 0
     for r in results:
         total_reach.update(r.get("reach", {}))
@@ -325,6 +325,7 @@ def run_check(pid, tier="quick", seed=0, replay=None, out=sys.stdout):
             f = match_finding(v, findings)
             if f:
                 known_hit[f["id"]] += 1
+                known_list.append({"finding": f["id"], "cid": r["cid"], "kind": v["kind"], "msg": v["msg"][:600], "mech": v["mech"]})
             else:
                 n_viol += 1
                 unlisted.append((r["cid"], v))
@@ -336,6 +337,12 @@ def run_check(pid, tier="quick", seed=0, replay=None, out=sys.stdout):
             n_viol += 1
             unlisted.append((v.get("cid", "aggregate"), v))
 
+    try:        # developer aid: the violations that were attributed to listed findings in this run
+        os.makedirs(TMP_ROOT, exist_ok=True)
+        with open(os.path.join(TMP_ROOT, "last_%s_known.json" % pid), "w") as fk:
+            json.dump(known_list[:500], fk, indent=1, default=str)
+    except Exception:
+        pass
     for f in findings:
         if known_hit.get(f["id"]):
             print("KNOWN-FINDING: property=%s %s (%s; observed %d times in this run)"
